@@ -24,8 +24,7 @@ import (
 var c04Ints = []int{0, 1, 2, 3, 7, -1, 12, -5, 100}
 // (no negative x.5: round() of a negative half is the known divergence c04:round-negative-half)
 var c04Floats = []float64{0.5, 1.25, 2.5, 3.0, 0.125, 10.75, 1500000.5, 0.00001, 2.5e-7, 123456789.125, -1.25, -3.0, 0.1, -0.75, 1e-7}
-// (no double quote: soy.$$escapeHtml writes &quot; where the Go escaper writes &#34; — hand case c04:escapeHtml-double-quote)
-var c04Strs = []string{"", "abc", "<i>x</i>", "a&b", "q's", "é日本", "line1\nline2", "a b c d e f", "0", "</script>", "tab\there", "x y"}
+var c04Strs = []string{"say \"hi\"", "", "abc", "<i>x</i>", "a&b", "q's", "é日本", "line1\nline2", "a b c d e f", "0", "</script>", "tab\there", "x y"}
 
 func c04Value(g *bundleGen, t ty) (interface{}, bool) {
 	r := g.r
